@@ -1,4 +1,4 @@
-"""C08  Compilation and error rendering are total: no panic, abort or hang (kernel level)."""
+"""C08  Compilation and error rendering are total: no panic, abort or hang (scanner / renderer kernels + whole pipeline on degenerate modules)."""
 import itertools, z3
 from mirsym.core import *
 from mirsym import native, models
@@ -12,6 +12,7 @@ ASSUMPTIONS = [
     "kernel level only ('for all UTF-8 strings through both backends' is out of reach of symbolic execution): the hand-written scanners (comment, line_comment, block_comment incl. take_until_unbalanced / take_until_or, skip_ws_and_comments) and the error renderers (LexerError::contextualize, until_next_unindented, Display) are executed from real MIR on every string of <= 4 (thorough 5) characters, each a symbolic member of {'/', '*', '-', LF, 'a', space} or the concrete 2-byte character 'é'; oracle: no Panic terminator / overflow / out-of-range slice is reachable and every path ends within the step budget (loops are over the input)",
     "contextualize is run for every ReportData that satisfies the C17 invariant w.r.t. the text: context_start_offset <= offset <= len, both on character boundaries (what the lexer can report)",
     "panics of the generator on linked IR are reported by the shape checks of C02-C07; a native job compiles every prefix and single-token corruption of sample modules under a watchdog (concrete complement, both backends)",
+    "pipeline jobs: compile_to_string of BOTH backends runs from real MIR (pipe bridge: lexer, validator / linker, generator) on ~50 dangling, cyclic and degenerate modules (unknown type / value / choice / alternative / class / field / template references, arity mismatches, cyclic aliases / values / COMPONENTS OF / templates / selection types, empty strings and characters outside the alphabet in FROM, inverted / negative / huge bounds, colliding numbers, values of the wrong kind), the integers written in them 128-bit solver variables; every returned error and warning is rendered through the real Display and contextualize; a path that panics, or exceeds the call-depth / step budget, is replayed natively with the solver's value (panic, abort by stack exhaustion and watchdog time-out all count)",
 ]
 ALPH = [47, 42, 45, 10, 97, 32]
 
@@ -24,7 +25,141 @@ def jobs(tier, seed):
             js.append(f"scan-{k}-{n}")
     for n in range(0, (4 if tier == 'quick' else 5) + 1):
         js.append(f"render-{n}")
-    return js + ['native']
+    return js + ['native'] + [f"pipe-{i}of{NPIPE}" for i in range(NPIPE)]
+
+
+NPIPE = 16
+P1 = 1000003
+
+
+def prepare():
+    from mirsym import pipe
+    pipe.dump()
+
+
+def degenerate_modules(tier):
+    """(role, module body, constraints on the placeholder) : dangling, cyclic and degenerate notation that must be answered
+    with Ok, Err or a warning - never with a panic, an abort or a hang"""
+    H = "M DEFINITIONS AUTOMATIC TAGS ::= BEGIN "
+    out = []
+
+    def add(role, body, assume=None):
+        out.append((role, H + body + " END", assume))
+    # dangling references
+    add("dangling type reference", "A ::= Missing")
+    add("dangling component type", "A ::= SEQUENCE { a Missing, b SET OF Missing }")
+    add("dangling value reference in constraint", "A ::= INTEGER (0..missing)")
+    add("dangling DEFAULT value", "A ::= SEQUENCE { a INTEGER DEFAULT missing }")
+    add("selection of unknown choice", "A ::= SEQUENCE { s a < Missing }")
+    add("selection of unknown alternative", "A ::= SEQUENCE { s zz < C } C ::= CHOICE { a NULL }")
+    add("selection of unknown alternative top-level", "A ::= zz < C C ::= CHOICE { a NULL }")
+    add("selection from a non-choice", f"A ::= a < B B ::= INTEGER (0..{P1})")
+    add("components of unknown type", "A ::= SEQUENCE { x NULL, COMPONENTS OF Missing }")
+    add("components of a non-sequence", f"A ::= SEQUENCE {{ x NULL, COMPONENTS OF B }} B ::= INTEGER (0..{P1})")
+    add("too few actual parameters", "Pair {First, Second} ::= SEQUENCE { first First, second Second } A ::= Pair {INTEGER}")
+    add("too few actual parameters nested", "Pair {First, Second} ::= SEQUENCE { first First, second Second } A ::= SEQUENCE { inner Pair {BOOLEAN} }")
+    add("too few value parameters", f"Bounded {{INTEGER:lo, INTEGER:hi}} ::= INTEGER (lo..hi) A ::= Bounded {{{P1}}}")
+    add("too many actual parameters", "One {T} ::= SEQUENCE { a T } A ::= One {INTEGER, BOOLEAN}")
+    add("unknown template", "A ::= Missing {INTEGER}")
+    add("value argument for a type parameter", f"One {{T}} ::= SEQUENCE {{ a T }} A ::= One {{{P1}}}")
+    add("field of unknown class", "A ::= SEQUENCE { i MISSING.&id }")
+    add("unknown field of a class", "CLS ::= CLASS { &id INTEGER UNIQUE } A ::= SEQUENCE { i CLS.&nope }")
+    add("import of unknown symbol", "IMPORTS Gone FROM Other; A ::= SEQUENCE { g Gone }")
+    # cycles
+    add("cyclic aliases", "A ::= B B ::= A")
+    add("cyclic aliases with a value", f"A ::= B B ::= A v A ::= {P1}")
+    add("cyclic aliases (3) with a value", "A ::= B B ::= C C ::= A v B ::= TRUE")
+    add("cyclic aliases in a component with DEFAULT", f"A ::= B B ::= A S ::= SEQUENCE {{ a A DEFAULT {P1} }}")
+    add("cyclic value references", "a INTEGER ::= b b INTEGER ::= a")
+    add("constraint on cyclic value references", "a INTEGER ::= b b INTEGER ::= a T ::= INTEGER (a..MAX)")
+    add("self-referencing constraint value", "a INTEGER (0..a) ::= 5")
+    add("components of itself", "A ::= SEQUENCE { x NULL, COMPONENTS OF A }")
+    add("mutual components of", "A ::= SEQUENCE { x NULL, COMPONENTS OF B } B ::= SEQUENCE { y NULL, COMPONENTS OF A }")
+    add("self-instantiating template", "P {T} ::= SEQUENCE { a P {T} OPTIONAL } X ::= P {NULL}")
+    add("selection type cycle", "A ::= a < A")
+    add("required self recursion", "A ::= SEQUENCE { a A }")
+    add("recursion through choice and sequence of", "A ::= CHOICE { l SEQUENCE OF A, s SET { a A } }")
+    # degenerate constraints and values
+    add("empty string as FROM range end", 'A ::= IA5String (FROM ("".."z"))')
+    add("empty string as FROM range start", 'A ::= IA5String (FROM ("a".."")) B ::= NumericString (FROM (""))')
+    add("FROM with characters outside the alphabet", 'A ::= NumericString (FROM ("a".."z")) B ::= PrintableString (FROM ("{"))')
+    add("inverted range", f"A ::= INTEGER ({P1}..5)", lambda v: [v > 5])
+    add("inverted size", f"A ::= OCTET STRING (SIZE ({P1}..2))", lambda v: [v > 2])
+    add("negative size", f"A ::= SEQUENCE (SIZE ({P1})) OF NULL", lambda v: [v < 0])
+    add("huge bounds", f"A ::= INTEGER ({P1}..MAX) B ::= SEQUENCE {{ a INTEGER (MIN..{P1}) }}")
+    add("named bit far out", f"A ::= BIT STRING {{ far({P1}) }} v A ::= {{ far }}", lambda v: [v >= 0])
+    add("named number collision", f"A ::= INTEGER {{ x({P1}), y({P1}) }} (x..y)")
+    add("enumerated with equal numbers", f"A ::= ENUMERATED {{ x({P1}), y({P1}) }}")
+    add("default of the wrong kind", 'A ::= SEQUENCE { a BOOLEAN DEFAULT 5, b INTEGER DEFAULT TRUE, c NULL DEFAULT "x" }')
+    add("value of the wrong kind", 'v BOOLEAN ::= 5 w INTEGER ::= "x" x NULL ::= TRUE')
+    add("oid value with unknown names", "v OBJECT IDENTIFIER ::= { foo bar 3 }")
+    add("bit string value with unknown named bits", "A ::= BIT STRING { a(0) } v A ::= { b, c }")
+    add("choice value with unknown alternative", "C ::= CHOICE { a NULL } v C ::= zz : NULL")
+    add("sequence value with unknown component", f"S ::= SEQUENCE {{ a INTEGER }} v S ::= {{ zz {P1} }}")
+    add("symbolic tag number", f"A ::= [{P1}] INTEGER", lambda v: [v >= 0, v < 2**63])
+    return out
+
+
+def job_pipe(chk, prog, k, n, tier):
+    from mirsym import pipe
+    pp = pipe.Pipe(prog)
+    chk.ex.max_path_steps = 40000000
+    chk.allow_truncated = True      # truncated paths are replayed natively below
+    runner = native.Runner()
+    v = z3.BitVec('p1', 128)
+    sub = {P1: v}
+    try:
+        for role, text, assume in degenerate_modules(tier)[k::n]:
+            for backend in ('rasn', 'ts'):
+                sig = f"C08 pipeline {backend} {role}"
+
+                def run(ex, text=text, assume=assume, backend=backend):
+                    for c in (assume(v) if assume else []):
+                        ex.assume(c)
+                    r = pp.compile(ex, text, sub if str(P1) in text else None, backend=backend)
+                    # every returned error / warning is rendered (Display and contextualize)
+                    rendered = 0
+                    if r[0] == 'err':
+                        pp.render(ex, r[1], text)
+                        rendered = 1
+                    else:
+                        for c in ex.force(r[3]).cells:
+                            pp.render(ex, c.v, text)
+                            rendered += 1
+                    return (r[0], rendered)
+                for r in chk.explore(run):
+                    if r.kind == 'ok':
+                        chk.res.obligations += 1
+                        chk.res.discharged += 1
+                        continue
+                    if r.kind not in ('panic', 'truncated'):
+                        continue
+                    m = chk.model_of(r.pc) if r.pc else None
+                    val = model_int(m, v, True) if m is not None else 5
+                    ctext = text.replace(str(P1), str(val))
+                    out = runner.compile(ctext, backend=backend)
+                    bad = None
+                    if 'panic' in out:
+                        bad = f"panics ({out['panic'][:80]})"
+                    elif 'crash' in out:
+                        bad = f"aborts the process (exit status {out['crash']}: stack exhaustion or allocation failure)"
+                    elif out.get('hang'):
+                        bad = 'does not terminate within the watchdog time'
+                    else:
+                        errs = [out.get('error')] if not out.get('ok') else out.get('warnings', [])
+                        if any(e and (e.get('display_panicked') or e.get('contextualize_panicked')) for e in errs):
+                            bad = 'panics while rendering an error / warning'
+                    chk.res.obligations += 1
+                    if bad:
+                        chk.violation(sig, f"compiling {role} {bad}: {ctext!r}", {'kind': 'text', 'text': ctext, 'backend': backend})
+                    else:
+                        what = r.value[0] if r.kind == 'panic' else 'step budget exceeded'
+                        chk.res.inconclusive.append(f"not reproduced natively: {sig}: {what} (value {val})")
+                chk.witness('degenerate module explored', True)
+        chk.sample({'pipeline_modules': len(degenerate_modules(tier)[k::n])})
+    finally:
+        runner.close()
+    chk.res.bounds = {'degenerate modules': len(degenerate_modules(tier)), 'backends': 2, 'integers': '1 x i128 symbolic where the module has one'}
 
 
 KERN = {'comment': scan.COMMENT, 'line': scan.LINE_COMMENT, 'block': scan.BLOCK_COMMENT, 'marker': scan.EXT_MARKER}
@@ -180,8 +315,16 @@ def job_native(prog, chk, tier, seed):
 
 
 def run_job(prog, job, tier, seed):
-    chk = Checker(prog, job)
     p = job.split('-')
+    if p[0] == 'pipe':
+        from mirsym import pipe
+        from mirsym.harness import program
+        pprog = program(pipe.dump())
+        chk = Checker(pprog, job)
+        k, n = p[1].split('of')
+        job_pipe(chk, pprog, int(k), int(n), tier)
+        return chk.res
+    chk = Checker(prog, job)
     if p[0] == 'scan':
         job_scan(prog, chk, p[1], int(p[2]), tier)
     elif p[0] == 'render':
